@@ -108,6 +108,8 @@ pub struct Ctx {
     pub hist: BTreeMap<String, u64>,
     pub samples: Vec<String>,
     pub replay_only: Option<Vec<String>>,
+    /// work directory of this run (the `--dir` argument)
+    pub dir: String,
 }
 
 impl Ctx {
@@ -125,6 +127,7 @@ impl Ctx {
             hist: Default::default(),
             samples: vec![],
             replay_only: None,
+            dir: String::from("/verif/work/tmp"),
         }
     }
     /// Number of cases for a suite: `q` in quick tier, `t` in thorough.
